@@ -133,7 +133,8 @@ public:
       op.n.clear(); op.s.clear();
       if (fam == 0) {
         switch (r.Below(5)) {
-        case 0: op.kind = "Val"; op.n = { r.Range(0, elems) }; return true;
+        case 0: if (r.Pct(8)) { static const std::vector<int> sz{ 8, 10, 12, 16, 17, 18, 20 }; op.kind = "RangeSet"; op.n = { r.Pick(sz) }; return true; }   // a wider enumerated set: factor for lazy products of a few hundred tuples
+          op.kind = "Val"; op.n = { r.Range(0, elems) }; return true;
         case 1: { op.kind = "Tuple"; const int k = r.Range(2, 3); for (int i = 0; i < k; ++i) op.n.push_back(anyH()); std::vector<std::string> parts; for (auto x : op.n) parts.push_back(H[static_cast<size_t>(x)].ty); if (Depth(TupleType(parts)) > 4) continue; return true; }
         case 2: { op.kind = "Set"; const auto first = anyH(); const auto same = OfType(H[static_cast<size_t>(first)].ty); if (Depth(H[static_cast<size_t>(first)].ty) > 3) continue; op.n = { first }; const int k = r.Range(0, 4); for (int i = 0; i < k; ++i) op.n.push_back(static_cast<int64_t>(r.Pick(same))); return true; }
         case 3: { op.kind = "EmptySet"; const auto h = anyH(); if (Depth(H[static_cast<size_t>(h)].ty) > 3) continue; op.n = { h }; return true; }
@@ -146,9 +147,21 @@ public:
           const auto h = r.Pick(sets); if (H[h].m.items.size() > 7 || Depth(H[h].ty) > 3) continue;
           op.kind = "Boolean"; op.n = { static_cast<int64_t>(h) }; return true;
         } else {
+          if (r.Pct(15)) {   // a wide product on purpose: more positions than one byte can index (257..800 tuples), preferably just above 256 where a cache window of 100 straddles the wrap
+            std::vector<size_t> cand; for (auto h : sets) if (H[h].m.items.size() >= 2 && Depth(H[h].ty) <= 2) cand.push_back(h);
+            std::sort(cand.begin(), cand.end(), [&](size_t a, size_t b) { return H[a].m.items.size() > H[b].m.items.size(); }); if (cand.size() > 8) cand.resize(8);
+            std::vector<std::vector<int64_t>> near, wide;
+            for (size_t a = 0; a < cand.size(); ++a) for (size_t b = 0; b < cand.size(); ++b) {
+              const size_t p2 = H[cand[a]].m.items.size() * H[cand[b]].m.items.size();
+              if (p2 > 256 && p2 <= 800) (p2 <= 355 ? near : wide).push_back({ static_cast<int64_t>(cand[a]), static_cast<int64_t>(cand[b]) });
+              for (size_t d = 0; d < cand.size() && p2 <= 400; ++d) { const size_t p3 = p2 * H[cand[d]].m.items.size(); if (p3 > 256 && p3 <= 800) (p3 <= 355 ? near : wide).push_back({ static_cast<int64_t>(cand[a]), static_cast<int64_t>(cand[b]), static_cast<int64_t>(cand[d]) }); }
+            }
+            if (!near.empty() && r.Pct(75)) { op.kind = "Decartian"; op.n = r.Pick(near); return true; }
+            if (!wide.empty()) { op.kind = "Decartian"; op.n = r.Pick(wide); return true; }
+          }
           const int k = r.Range(2, 3); size_t prod = 1; int depth = 0;
           for (int i = 0; i < k; ++i) { const auto h = r.Pick(sets); op.n.push_back(static_cast<int64_t>(h)); prod *= H[h].m.items.size(); depth = std::max(depth, Depth(H[h].ty)); }
-          if (prod > 300 || depth > 3) continue;
+          if (prod > (r.Pct(25) ? 800u : 300u) || depth > 3) continue;   // sometimes beyond 256 elements: more than the lazy-set cache can index with one byte
           op.kind = "Decartian"; return true;
         }
       } else if (fam == 2) {
@@ -252,6 +265,7 @@ public:
       if (el.size() > 1 && MSet(ms).items.size() < ms.size()) c.Probe("set_with_duplicates");
       Handle h; h.v = Factory::Set(el); h.m = MSet(ms); h.ty = "B" + ty; Push(c, h, k);
     }
+    else if (k == "RangeSet") { const int n = static_cast<int>(std::clamp<int64_t>(op.N(0), 0, 24)); std::vector<int32_t> ids; std::vector<MV> ms; for (int i = 0; i < n; ++i) { ids.push_back(i); ms.push_back(MVal(i)); } Handle h; h.v = Factory::SetV(ids); h.m = MSet(ms); h.ty = "BE"; Push(c, h, k); }
     else if (k == "EmptySet") { Handle h; h.v = Factory::EmptySet(); h.m = MSet({}); h.ty = "B" + H[hx(0)].ty; Push(c, h, k); }
     else if (k == "Singleton") { Handle h; h.v = Factory::Singleton(H[hx(0)].v); h.m = MSet({ H[hx(0)].m }); h.ty = "B" + H[hx(0)].ty; Push(c, h, k); }
     else if (k == "Boolean") {
@@ -287,7 +301,7 @@ public:
         while (p-- > 0) { if (++idx[p] < ms[p]->items.size()) { done = false; break; } idx[p] = 0; }
         if (done) break;
       }
-      if (prod == 0) c.Probe("decartian_with_empty_factor"); if (anyLazy) c.Probe("decartian_of_lazy");
+      if (prod == 0) c.Probe("decartian_with_empty_factor"); if (anyLazy) c.Probe("decartian_of_lazy"); if (prod > 256) c.Probe("lazy_set_over_256_elements");
       Handle h; h.v = Factory::Decartian(f); h.m = MSet(tuples); h.ty = "B" + TupleType(tys); h.lazy = prod > 0 ? 1 : 0; Push(c, h, k);
     }
     else if (k == "Union" || k == "Intersect" || k == "Diff" || k == "SymDiff") {
